@@ -55,7 +55,14 @@ CfgDef == [
   only3     |-> [Base EXCEPT !.n1.on = FALSE, !.n2.on = FALSE],
   dis       |-> [Base EXCEPT !.n1.disabled = TRUE],
   mp        |-> [Base EXCEPT !.n1.mp = TRUE],
-  active2   |-> [Base EXCEPT !.n2.passive = "no"] ]
+  active2   |-> [Base EXCEPT !.n2.passive = "no"],
+  \* nothing left: every neighbour (hence every group) removed
+  rmAll     |-> [Base EXCEPT !.n1.on = FALSE, !.n2.on = FALSE, !.n3.on = FALSE],
+  \* policies of the group whose sessions run over IPv6, and of an IPv4 group that also carries the IPv6 family
+  impB      |-> [Base EXCEPT !.gB.import = <<"POL_B">>],
+  expB      |-> [Base EXCEPT !.gB.export = <<"POL_A">>],
+  v6exp     |-> [Base EXCEPT !.gA.ipv6 = Fam(FALSE, FALSE, 0), !.gA.export = <<"POL_B">>],
+  v6imp     |-> [Base EXCEPT !.gA.ipv6 = Fam(FALSE, FALSE, 0), !.gA.import = <<"POL_A">>] ]
 
 ASSUME Variants \subseteq DOMAIN CfgDef
 
